@@ -196,6 +196,14 @@ func (v *collator_[V]) compareMaps(first ref.Value, second ref.Value) bool {
 }
 
 func (v *collator_[V]) compareIntrinsics(first, second ref.Value) bool {
+	switch first.Kind() {
+	case ref.Float32, ref.Float64, ref.Complex64, ref.Complex128:
+		// The Go comparison operator says that a NaN differs from itself, so
+		// values of the same floating point type are equal when they rank equal.
+		if first.Type() == second.Type() {
+			return v.rankIntrinsics(first, second) == EqualRank
+		}
+	}
 	return first.Interface() == second.Interface()
 }
 
@@ -427,6 +435,16 @@ func (v *collator_[V]) rankFloats(first, second float64) Rank {
 		return LesserRank
 	}
 	if first > second {
+		return GreaterRank
+	}
+	// A NaN is neither less than nor greater than any number.  To keep the
+	// ranking a total order it is ranked before all numbers and equal to NaN.
+	var firstNaN = first != first
+	var secondNaN = second != second
+	if firstNaN && !secondNaN {
+		return LesserRank
+	}
+	if secondNaN && !firstNaN {
 		return GreaterRank
 	}
 	return EqualRank
